@@ -132,4 +132,16 @@ CLAIMED = {
             "requires accepted <=> no rule violated, plus verify <=> alg in the protected header.",
             "Complete inside the enumerated parameter shapes; JSON (serde_json) trusted.",
             "DESIGN.md §3 C11"),
+    "C01": ("TLA+ spec JwsVerify (Decode;Verify machine over received-token rows naming byte strings) model-checked by TLC; "
+            "every row realised as real bytes with real signatures and decoded with a recording JwsVerifier; exhaustive "
+            "single-bit mutation of verifying tokens",
+            "model_checking",
+            "TLC explores all 10 692 rows and checks that 'verified' implies the signature check was made over exactly the "
+            "received protected segment + '.' + received payload, with the protected algorithm and the caller's key, and that "
+            "claims are the signed payload; the harness builds each row (three serializations, non-canonical header JSON, "
+            "attached/detached, b64 variants, five signature origins, three algorithms), decodes it, compares signing input, "
+            "claims, alg source, the verifier's recorded input and the outcome, and flips every bit of the protected segment, "
+            "payload and signature of the verifying tokens (about 2.4 x 10^5 mutants in the quick tier) expecting failure.",
+            "Signature primitives trusted. Decision table: no trace direction.",
+            "DESIGN.md §3 C01"),
 }
